@@ -96,3 +96,11 @@ def evaluate(case):
 
 def nontrivial(c):
     return len(c["x"]) >= 3 and any(v != 0 for v in c["y"])
+
+
+LEAN_EXTRA = ["PystogVerif.Props.C02Fortran"]
+
+
+def correspond_extra(seed, tier):
+    import fortrancorr
+    return fortrancorr.run(seed, tier, lorch_only=False, tag="fortrancorr-c02")
